@@ -36,6 +36,7 @@ struct Obs {
     std::string outcome; // "exception:<what>" / "completed" / "exit:<n>"
     int its = -1;
     double rho = 0;
+    std::vector<double> norms; // residual history of the (last) solve
     bool has_err = false;
     double e2 = 0, einf = 0;
     uint64_t sol_hash = 0;
@@ -126,6 +127,7 @@ Obs run_api_once(const Value& plan, const SolverOpts& o, int poison, Result& r)
         ob.outcome = "completed";
         ob.its     = s->numberOfIterations();
         ob.rho     = s->meanResidualReductionFactor();
+        ob.norms   = GMGPolarVerifAccess::residual_norms(*s);
         auto a = s->exactErrorWeightedEuclidean();
         auto b = s->exactErrorInfinity();
         if (a.has_value() && b.has_value()) {
@@ -192,6 +194,18 @@ void run_api(const Value& plan, Result& r)
             r.fail("C20.solution_not_finite", r.signature);
         if (c01 && !std::isfinite(a.rho))
             r.fail("C20.reduction_factor_not_finite", fmt("rho=%g its=%d; %s", a.rho, a.its, r.signature.c_str()));
+        // the mean reduction factor is the function of the residual history the documentation states, whichever
+        // tolerance is enabled: (last / first)^(1 / iterations)
+        if (a.its > 0 && a.norms.size() >= 2 && a.norms.front() > 0 && std::isfinite(a.norms.front()) &&
+            std::isfinite(a.norms.back())) {
+            double want = std::pow(a.norms.back() / a.norms.front(), 1.0 / a.its);
+            r.probe(o.rel_tol < 0 ? "rho_checked_relative_tolerance_disabled"
+                                  : o.abs_tol < 0 ? "rho_checked_absolute_tolerance_disabled" : "rho_checked");
+            if (std::isfinite(want) && !(std::fabs(a.rho - want) <= 1e-9 * std::max(1.0, std::fabs(want))))
+                r.fail("C20.reduction_factor_is_not_the_mean_of_the_residual_history",
+                       fmt("rho=%.12g but (%.6e / %.6e)^(1/%d) = %.12g; %s", a.rho, a.norms.back(), a.norms.front(), a.its,
+                           want, r.signature.c_str()));
+        }
     }
     // memory-poison differential (fast / trace flavours: our allocator)
     if (!is_asan()) {
